@@ -228,6 +228,13 @@ func checkC11(c *Ctx) {
 	c.checkBucketCacheGet("O1 histogram-own-bounds")
 	c.checkBucketsEqual("O1 histogram-own-bounds-equal")
 	c.checkBoundTablePrivate("O1 histogram-keeps-bounds")
+	// "keyed by its full name and tags ... an independent copy": the tags of a scope are its private copy of
+	// what the caller passed (shared with C04 O4)
+	if merge, copySan := c.fn("", "", "mergeRightTags"), c.fn("", "scope", "copyAndSanitizeMap"); merge != nil && copySan != nil {
+		c.checkTagsIngress("O1 own-tags", merge, copySan)
+	} else {
+		c.missing("O1 own-tags", "tally.mergeRightTags / scope.copyAndSanitizeMap")
+	}
 
 	// ---- O3 locks ---------------------------------------------------------------------------------
 	eng := c.newLockEngine()
